@@ -1,6 +1,8 @@
 import ScriggoV.Lemmas.GoStmt
 import ScriggoV.Model.GoCopy
 import ScriggoV.Gen.GoCopy
+import ScriggoV.Lemmas.ChanSeq
+import ScriggoV.Model.CaseBuf
 /-! # C14 — goroutine and channel programs agree with gc under every schedule
 
 Property theorems only; the models are in `Model/GoStmt.lean`.
@@ -276,3 +278,142 @@ def knownRecvStores : List (String × String × String) := [
 theorem received_value_stored_whatever_ok : recvStores = knownRecvStores := by decide
 
 end ScriggoV.GoCopy
+
+/-! ## A context that is not cancelled does not change the run
+
+With `RunOptions.Context` set to a context whose Done channel is not nil the VM performs every
+blocking channel operation as `reflect.Select(vm.cases)` over the operation's own cases and the
+Done case. `Model/ChanSeq.lean` runs sequences of channel operations of one goroutine in both
+readings, the VM's reusable buffer `vm.cases` being part of the state; `Model/CaseBuf.lean`
+executes the control-flow skeletons of the instructions as extracted from run.go
+(`Gen/CaseBuf.lean`) and reads off on which ways out the buffer is emptied. -/
+namespace ScriggoV.ChanSeq
+
+/-- **C14, the buffer is empty at the start of every channel operation** — after any number of
+operations of any program, with or without a Done channel, provided every instruction empties the
+buffer on every way out -/
+theorem cases_empty_at_every_operation (ctx : Bool) (n : Nat) :
+    ∀ (c c' : Cfg), c.cases = [] → steps ctx Policy.good n c = .ok c' → c'.cases = [] := by
+  induction n with
+  | zero => intro c c' h hs; cases hs; exact h
+  | succ n ih =>
+    intro c c' h hs
+    unfold steps at hs
+    cases h1 : step ctx Policy.good c with
+    | error e => rw [h1] at hs; cases hs
+    | ok c1 =>
+      rw [h1] at hs
+      exact ih c1 c' (step_cases_nil ctx c c1 h h1) hs
+
+/-- **C14, an uncancelled context is transparent.** For every program of channel operations
+(sends, receives with and without ok, range until closed, select statements with receive and send
+cases with or without default, close, len/cap, nil channels) and every state of its channels:
+run with a Done channel that never becomes ready the VM does, operation by operation, what it
+does without one — Go's semantics: same channels, same trace, same outcome (also the same
+blocking and the same panics). -/
+theorem context_is_transparent (fuel : Nat) :
+    ∀ (c : Cfg), c.cases = [] → run true Policy.good fuel c = run false Policy.good fuel c := by
+  induction fuel with
+  | zero => intro c _; rfl
+  | succ fuel ih =>
+    intro c h
+    unfold run
+    rw [step_ctx_eq_plain c h]
+    cases h1 : step false Policy.good c with
+    | error e => rfl
+    | ok c1 =>
+      have : c1.cases = [] := step_cases_nil false c c1 h h1
+      simp only [ih c1 this]
+
+-- non-vacuity: a range until closed, then a receive from another channel, a select with default
+example : traceOf (run true Policy.good 20 ⟨[.range 0 [.lenCap 1], .recv 1, .setNil 0, .sel [.recv 0 2, .send 1 5] true,
+      .recvOk 1, .sel [.recv 1 1] true],
+    [⟨2, [3, 4], true, false⟩, ⟨1, [28], false, false⟩], [], []⟩) = some [3, 1, 1, 4, 1, 1, 28, 1, 5, 1, 1] := by decide
+
+/-! ### every reset is needed -/
+
+/-- Leave out the reset on one way out of one instruction and the statement is false. First
+witness, the reset of OpRange placed after the `if !ok { break }`: ranging over a closed channel
+leaves `[recv ch, done]` in the buffer, the receive from the other channel that follows selects
+over `[recv ch, done, recv other, done]`, the closed channel's case is ready: 0 instead of 28. -/
+theorem stale_case_after_range_changes_the_run :
+    traceOf (run true { Policy.good with rangeExit := false } 9
+      ⟨[.range 0 [], .recv 1], [⟨1, [], true, false⟩, ⟨1, [28], false, false⟩], [], []⟩) = some [0] ∧
+    traceOf (run false { Policy.good with rangeExit := false } 9
+      ⟨[.range 0 [], .recv 1], [⟨1, [], true, false⟩, ⟨1, [28], false, false⟩], [], []⟩) = some [28] := by
+  decide
+
+/-- … and so for each of the five places: a policy that differs from `good` anywhere has a
+program that a Done channel changes -/
+theorem every_reset_is_needed (pol : Policy) (h : pol ≠ Policy.good) :
+    ∃ (code : List Op) (chans : List Ch),
+      traceOf (run true pol 9 ⟨code, chans, [], []⟩) ≠ traceOf (run false pol 9 ⟨code, chans, [], []⟩) := by
+  obtain ⟨r, s, sl, rb, re⟩ := pol
+  cases r with
+  | false => exact ⟨[.recv 0, .recv 1], [⟨2, [1, 2], false, false⟩, ⟨1, [9], false, false⟩], by
+      cases s <;> cases sl <;> cases rb <;> cases re <;> decide⟩
+  | true =>
+  cases s with
+  | false => exact ⟨[.send 0 7, .recv 1], [⟨2, [], false, false⟩, ⟨1, [9], false, false⟩], by
+      cases sl <;> cases rb <;> cases re <;> decide⟩
+  | true =>
+  cases sl with
+  | false => exact ⟨[.sel [.recv 0 1] false, .recv 1], [⟨2, [1, 2], false, false⟩, ⟨1, [9], false, false⟩], by
+      cases rb <;> cases re <;> decide⟩
+  | true =>
+  cases rb with
+  | false => exact ⟨[.range 0 [.recv 1]], [⟨2, [1, 2], true, false⟩, ⟨2, [8, 9], false, false⟩], by
+      cases re <;> decide⟩
+  | true =>
+  cases re with
+  | false => exact ⟨[.range 0 [], .recv 1], [⟨1, [], true, false⟩, ⟨1, [28], false, false⟩], by decide⟩
+  | true => exact absurd rfl h
+
+end ScriggoV.ChanSeq
+
+/-! ### … and run.go empties the buffer on every way out: regenerated facts -/
+namespace ScriggoV.CaseBuf
+open ScriggoV.Gen.CaseBuf ScriggoV.ChanSeq
+
+/-- **generated fact** `select_sees_only_own_cases`: started with an empty buffer, along every path
+through OpReceive, OpSend and the channel case of OpRange — with a Done channel — `reflect.Select`
+sees exactly the two cases the instruction appended, the body of a range loop starts with an empty
+buffer, and every way out on which the VM goes on (end of the clause, break, a return that is not
+`vm.stop()`) leaves an empty buffer; without a Done channel the buffer is not touched. OpSelect,
+started with the `n` cases pushed by OpCase, selects over those (`n`, or `n + 1` with the Done
+case) and leaves an empty buffer; OpCase adds exactly one case; `Reset` empties the buffer. -/
+theorem select_sees_only_own_cases :
+    wellBehaved (summary true opReceive .zero) [⟨false, 2⟩] .zero = true ∧
+    wellBehaved (summary true opSend .zero) [⟨false, 2⟩] .zero = true ∧
+    wellBehaved (summary true opRangeChan .zero) [⟨false, 2⟩] .zero = true ∧
+    wellBehaved (summary false opReceive .zero) [] .zero = true ∧
+    wellBehaved (summary false opSend .zero) [] .zero = true ∧
+    wellBehaved (summary false opRangeChan .zero) [] .zero = true ∧
+    wellBehaved (summary true opSelect .entry) [⟨true, 0⟩, ⟨true, 1⟩] .zero = true ∧
+    wellBehaved (summary false opSelect .entry) [⟨true, 0⟩] .zero = true ∧
+    wellBehaved (summary true opCase .entry) [] ⟨true, 1⟩ = true ∧
+    wellBehaved (summary false opCase .entry) [] ⟨true, 1⟩ = true ∧
+    wellBehaved (summary true vmReset .entry) [] .zero = true := by
+  decide
+
+/-- **generated fact** `cases_written_only_by_channel_instructions`: nothing else in the runtime
+package assigns `vm.cases` -/
+theorem cases_written_only_by_channel_instructions :
+    casesWriters = ["Reset", "run/OpCase", "run/OpRange/reflect.Chan", "run/OpReceive", "run/OpSelect", "run/OpSend"] := by
+  decide
+
+/-- **generated fact** `code_empties_case_buffer`: the policy read off run.go is the good one -/
+theorem code_empties_case_buffer : policyOfCode = Policy.good := by decide
+
+/-- the code's handling of the buffer makes an uncancelled context transparent -/
+theorem context_is_transparent_code (fuel : Nat) (c : Cfg) (h : c.cases = []) :
+    run true policyOfCode fuel c = run false policyOfCode fuel c := by
+  rw [code_empties_case_buffer]; exact context_is_transparent fuel c h
+
+-- the skeleton of the regression this was written after (reset after `if !ok { break }`) is refused
+example : (policyOf opReceive opSend opSelect
+    [.loop false [.ite .doneNil [] [.app 2, .sel, .ite (.other "chosen == 1") [.stop] []],
+      .ite (.other "!ok") [.brk] [], .reset, .body, .ite (.other "breakOut") [.brk] []]]).rangeExit = false := by
+  decide
+
+end ScriggoV.CaseBuf
